@@ -11,9 +11,15 @@ fn mk<T: Dom>(outer: &VK, inner: &Option<VK>) -> DynV<T> { let base = match inne
 fn determinism<T: Dom>(outer: VK, inner: Option<VK>, k: usize, extra_last: Vec<usize>, clone_at: usize) {
     let positive = outer.needs_positive() || inner.as_ref().map_or(false, |i| i.needs_positive());
     let name = match &inner { Some(i) => format!("{} over {}", outer.name(), i.name()), None => outer.name() };
-    let mut a = mk::<T>(&outer, &inner); // reference
+    let mut a = mk::<T>(&outer, &inner); // reference, polled once per step
     let mut b = mk::<T>(&outer, &inner); // twin on which last() is called extra times
-    let mut c: Option<DynV<T>> = None;   // clone of `a`, fed every input
+    // twins that are NOT polled until a given step (a view whose last() has side effects differs from them)
+    let first_poll = [k - 1, k / 2];
+    let mut unpolled: Vec<DynV<T>> = first_poll.iter().map(|_| mk::<T>(&outer, &inner)).collect();
+    // clones of `a` taken after steps 0, 1, k/2 and the seed-chosen step, fed every later input
+    let mut clone_steps = vec![0usize, 1, k / 2, clone_at];
+    clone_steps.sort_unstable(); clone_steps.dedup();
+    let mut clones: Vec<(usize, DynV<T>)> = vec![];
     let mut d: Option<DynV<T>> = None;   // clone of `a`, starved for two steps, then caught up
     let mut d_frozen: Option<Option<T>> = None;
     let mut backlog: Vec<T> = vec![];
@@ -22,10 +28,12 @@ fn determinism<T: Dom>(outer: VK, inner: Option<VK>, k: usize, extra_last: Vec<u
         if positive { T::assume(lt(T::zero(), x)); }
         a.update(x);
         b.update(x);
+        for u in unpolled.iter_mut() { u.update(x); }
         for _ in 0..extra_last[t % extra_last.len()] { let _ = b.last(); }
         T::oblige(&format!("{name} t={t}: twin with extra last() calls reports the identical value"), opt_ident(a.last(), b.last()));
         T::oblige(&format!("{name} t={t}: last() twice gives the identical value"), opt_ident(a.last(), a.last()));
-        if let Some(cl) = c.as_mut() { cl.update(x); T::oblige(&format!("{name} t={t}: clone taken at step {clone_at} continues exactly like the original"), opt_ident(a.last(), cl.last())); }
+        for (i, u) in unpolled.iter().enumerate() { if t >= first_poll[i] { T::oblige(&format!("{name} t={t}: twin first polled at step {} reports the identical value", first_poll[i]), opt_ident(a.last(), u.last())); } }
+        for (at, cl) in clones.iter_mut() { cl.update(x); T::oblige(&format!("{name} t={t}: clone taken at step {at} continues exactly like the original"), opt_ident(a.last(), cl.last())); }
         if let Some(dl) = d.as_mut() {
             if let Some(fz) = d_frozen {
                 backlog.push(x);
@@ -33,12 +41,11 @@ fn determinism<T: Dom>(outer: VK, inner: Option<VK>, k: usize, extra_last: Vec<u
                 if backlog.len() == 2 { for y in backlog.drain(..) { dl.update(y); } d_frozen = None; T::oblige(&format!("{name} t={t}: clone catches up to the identical value"), opt_ident(a.last(), dl.last())); }
             } else { dl.update(x); T::oblige(&format!("{name} t={t}: caught-up clone keeps agreeing"), opt_ident(a.last(), dl.last())); }
         }
-        if t == clone_at && a.can_clone() {
-            c = Some(a.clone());
-            let dd = a.clone();
-            d_frozen = Some(dd.last());
-            T::oblige(&format!("{name} t={t}: a fresh clone reports the identical value"), opt_ident(a.last(), dd.last()));
-            d = Some(dd);
+        if a.can_clone() && clone_steps.contains(&t) {
+            let cl = a.clone();
+            T::oblige(&format!("{name} t={t}: a fresh clone reports the identical value"), opt_ident(a.last(), cl.last()));
+            clones.push((t, cl));
+            if t == clone_at { let dd = a.clone(); d_frozen = Some(dd.last()); d = Some(dd); }
         }
     }
 }
@@ -102,7 +109,7 @@ pub fn units(tier: Tier, seed: u64) -> Vec<Unit> {
 pub fn meta() -> Meta {
     Meta {
         functions: vec!["every view of the crate ::{new,update,last,clone} (catalogue in engine/src/views.rs), over Echo and in seeded two-level chains"],
-        bounds: "N = 2 (quick) / {2,3} (thorough), raised to the view's minimum; k = 2N+3 (<= 6 for heavily branching views); VERIF_SEED chooses the pattern of extra last() calls (0..3 per step) and the step at which the clone is taken; 16 / 80 seeded two-level chains; all comparison outcomes up to 6000 paths per unit",
+        bounds: "N = 2 (quick) / {2,3} (thorough), raised to the view's minimum; k = 2N+3 (<= 6 for heavily branching views); twins first polled only at steps k/2 and k-1; clones taken after steps 0, 1, k/2 and a VERIF_SEED-chosen step; VERIF_SEED also chooses the pattern of extra last() calls (0..3 per step); 16 / 80 seeded two-level chains; all comparison outcomes up to 6000 paths per unit",
         outside: vec!["Add (does not implement Clone): twin and purity obligations only via C14/C01", "chains deeper than two, N > 3"],
         assumptions: vec!["term identity: identical terms are bit-identical in every float format; where two outputs are equal in the reals but not term-identical this is counted separately in the evidence (equal_in_reals_only)"],
     }
